@@ -1,0 +1,8 @@
+//go:build !verif
+// +build !verif
+
+package pipe
+
+// verifHook is a schedule point used by the verification build only (see hook_verif.go); it does
+// nothing in the ordinary build.
+func verifHook(point, pipe, src string) {}
